@@ -21,6 +21,8 @@ pub enum Action {
     /// the real endpoint's application shuts its writer down (its FIN goes out; the peer keeps
     /// sending: the half-closed states FinWait1/FinWait2)
     LocalShutdown,
+    /// after the peer's FIN: another FIN carrying this (later) sequence index
+    FinAt(u32),
 }
 
 /// What the scripted peer does after its FIN was sent in sequence.
@@ -56,6 +58,9 @@ pub struct RxCfg {
     pub limit: Us,
     pub keep_snapshots: bool,
     pub after_fin: Option<AfterFin>,
+    /// the real socket's transport refuses a datagram now and then (send returns Pending: a full
+    /// UDP send buffer): (probability per send, shortest, longest blockage)
+    pub pending: Option<(f64, Us, Us)>,
 }
 
 impl RxCfg {
@@ -67,6 +72,7 @@ impl RxCfg {
                 Action::Fin => acts.push_str("FIN "),
                 Action::Wait(us) => acts.push_str(&format!("w{}ms ", us / MS)),
                 Action::LocalShutdown => acts.push_str("LOCAL-SHUTDOWN "),
+                Action::FinAt(i) => acts.push_str(&format!("FIN@{} ", i)),
             }
         }
         let mut after = String::new();
@@ -77,13 +83,14 @@ impl RxCfg {
                     Action::Data(i) => after.push_str(&format!("D{} ", i)),
                     Action::Fin => after.push_str("FIN "),
                     Action::Wait(us) => after.push_str(&format!("w{}ms ", us / MS)),
+                    Action::FinAt(i) => after.push_str(&format!("FIN@{} ", i)),
                     Action::LocalShutdown => {}
                 }
             }
             after.push(']');
         }
         format!(
-            "{} sock[{}] role={} peer_isn={} reader[{}] pkts={} lens(first)={:?} respect_window={} complete={} fin={} a_writes={} script({} actions)=[{}{}]{after}",
+            "{} sock[{}] role={} peer_isn={} reader[{}] pkts={} lens(first)={:?} respect_window={} complete={} fin={} a_writes={} pending={:?} script({} actions)=[{}{}]{after}",
             if self.ipv6 { "v6" } else { "v4" },
             self.sock.describe(),
             if self.real_initiates { "real-connects" } else { "real-accepts" },
@@ -95,6 +102,7 @@ impl RxCfg {
             self.complete,
             self.fin,
             self.a_writes,
+            self.pending,
             self.script.len(),
             acts,
             if self.script.len() > 40 { "..." } else { "" }
@@ -203,6 +211,7 @@ pub async fn rx_scenario(world: Arc<World>, cfg: RxCfg, case_seed: u64) -> RxOut
                 world.sleep_us(*us).await;
                 update(&mut peer, &mut a_ack, &mut a_wnd);
             }
+            Action::FinAt(_) => {}
             Action::LocalShutdown => {
                 if let Some(mut wr) = w.take() {
                     let c = ctx(0);
@@ -304,6 +313,12 @@ pub async fn rx_scenario(world: Arc<World>, cfg: RxCfg, case_seed: u64) -> RxOut
                             update(&mut peer, &mut a_ack, &mut a_wnd);
                         }
                     }
+                    Action::FinAt(idx) => {
+                        let p = Pkt::new(wire::ST_FIN, peer.id_send, peer.first_seq.wrapping_add(*idx as u16), peer.ack_nr(), 1 << 20);
+                        peer.send(p);
+                        world.step().await;
+                        update(&mut peer, &mut a_ack, &mut a_wnd);
+                    }
                     Action::LocalShutdown => {}
                 }
             }
@@ -362,7 +377,12 @@ pub async fn rx_scenario(world: Arc<World>, cfg: RxCfg, case_seed: u64) -> RxOut
 pub fn run_rx(case_seed: u64, cfg: &RxCfg) -> CaseRun<RxOutcome> {
     let cfg2 = cfg.clone();
     let deadline = Duration::from_micros(cfg.limit + 300 * SEC);
-    run_case(case_seed, deadline, cfg.keep_snapshots, FaultPlan::perfect(case_seed), move |w| rx_scenario(w, cfg2, case_seed))
+    let mut plan = FaultPlan::perfect(case_seed);
+    if let Some((p, lo, hi)) = cfg.pending {
+        plan.pending_prob = p;
+        plan.pending_for = (lo, hi);
+    }
+    run_case(case_seed, deadline, cfg.keep_snapshots, plan, move |w| rx_scenario(w, cfg2, case_seed))
 }
 
 #[derive(Clone, Copy, Debug, PartialEq, Eq)]
@@ -535,7 +555,14 @@ pub fn generate(case_seed: u64, focus: RxFocus, max_pkts: usize) -> RxCfg {
                     beyond += 1;
                 }
                 2 => acts.push(Action::Data(aux.below(n as u64) as u32)),
-                3 => acts.push(Action::Fin),
+                3 => {
+                    if aux.chance(0.5) {
+                        acts.push(Action::Fin)
+                    } else {
+                        // a renumbered FIN (a stack that counts its FIN retransmissions, or a hostile peer)
+                        acts.push(Action::FinAt(n as u32 + aux.range(1, 6) as u32))
+                    }
+                }
                 _ => acts.push(Action::Wait(*aux.pick(&[1u64, 10, 39, 45, 120, 400, 1200]) * MS)),
             }
             if aux.chance(0.3) {
@@ -562,5 +589,15 @@ pub fn generate(case_seed: u64, focus: RxFocus, max_pkts: usize) -> RxCfg {
         limit: 400 * SEC,
         keep_snapshots: false,
         after_fin,
+        pending: {
+            let mut a = Prng::new(case_seed ^ 0x9E4D_146);
+            // (timing scripts only: the honesty oracles take "handed over" for "processed", which a
+            // blocked transport pulls apart - the endpoint stops processing while it cannot send)
+            if focus == RxFocus::Timing && a.chance(0.2) {
+                Some((*a.pick(&[0.02, 0.1, 0.3]), MS, *a.pick(&[1u64, 5, 30, 120]) * MS))
+            } else {
+                None
+            }
+        },
     }
 }
